@@ -187,3 +187,58 @@ V('c04-twin-precedence-rewrite', 'C04', 'C04.PRECEDENCE', BR,
 V('c04-twin-classify-reordered', 'C04', 'C04.CLASSIFY', BR,
   "                    if old_record is None:\n                        self._enqueue_callback(SERVICE_STATE_CHANGE_ADDED, type_, pointer.alias)\n                        self.query_scheduler.reschedule_ptr_first_refresh(pointer)\n                    elif pointer.is_expired(now):\n                        self._enqueue_callback(SERVICE_STATE_CHANGE_REMOVED, type_, pointer.alias)\n                        self.query_scheduler.cancel_ptr_refresh(pointer)\n                    else:\n                        self.query_scheduler.reschedule_ptr_first_refresh(pointer)",
   "                    if old_record is not None and pointer.is_expired(now):\n                        self.query_scheduler.cancel_ptr_refresh(pointer)\n                        self._enqueue_callback(SERVICE_STATE_CHANGE_REMOVED, type_, pointer.alias)\n                        continue\n                    if old_record is None:\n                        self._enqueue_callback(SERVICE_STATE_CHANGE_ADDED, type_, pointer.alias)\n                    self.query_scheduler.reschedule_ptr_first_refresh(pointer)", expect='silent')
+
+CA = '_cache.py'
+# ---------------------------------------------------------------- C05
+V('c05-kv-predelete-removed', 'C05', 'C05.KV', CA,
+  "        store.pop(record, None)\n        store[record] = record", "        store[record] = record", names=['_async_add'])
+V('c05-kv-service-predelete-removed', 'C05', 'C05.KV', CA,
+  "            service_store.pop(record, None)\n", "", names=['_async_add'])
+V('c05-kv-conditional-wrong', 'C05', 'C05.KV', CA,
+  "        store.pop(record, None)\n        store[record] = record", "        if record not in store:\n            store.pop(record, None)\n        store[record] = record", names=['_async_add'])
+V('c05-remove-skips-service-index', 'C05', 'C05.TWOINDEX', CA,
+  "        if isinstance(record, DNSService):\n            _remove_key(self.service_cache, record.server_key, record)\n", "")
+V('c05-remove-uses-server', 'C05', 'C05.TWOINDEX', CA,
+  "_remove_key(self.service_cache, record.server_key, record)", "_remove_key(self.service_cache, record.server, record)")
+V('c05-empty-bucket-left', 'C05', 'C05.TWOINDEX', CA,
+  "    del cache[key][record]\n    if not cache[key]:\n        del cache[key]", "    del cache[key][record]")
+V('c05-raw-name-lookup', 'C05', 'C05.KEYS', CA,
+  "        return self.cache.get(name.lower()) or {}", "        return self.cache.get(name) or {}")
+V('c05-raw-server-lookup', 'C05', 'C05.KEYS', CA,
+  "        return list(self.service_cache.get(server.lower(), []))", "        return list(self.service_cache.get(server, []))")
+V('c05-browser-writes-ttl', 'C05', 'C05.OWN', '_services/browser.py',
+  "                    elif pointer.is_expired(now):\n                        self._enqueue_callback(SERVICE_STATE_CHANGE_REMOVED",
+  "                    elif pointer.is_expired(now):\n                        old_record.ttl = 0\n                        self._enqueue_callback(SERVICE_STATE_CHANGE_REMOVED")
+V('c05-info-mutates-bucket', 'C05', 'C05.OWN', '_services/browser.py',
+  "                names = {service.name for service in cache.async_entries_with_server(record.name)}",
+  "                bucket = cache.async_entries_with_server(record.name)\n                names = {service.name for service in bucket}\n                bucket.pop(record, None)")
+V('c05-new-reset-ttl-caller', 'C05', 'C05.OWN', '_handlers/query_handler.py',
+  "        maybe_entry = self._cache.async_get_unique(record)\n        return bool(maybe_entry is not None and maybe_entry.is_recent(self._now))",
+  "        maybe_entry = self._cache.async_get_unique(record)\n        if maybe_entry is not None and record.ttl:\n            maybe_entry.reset_ttl(record)\n        return bool(maybe_entry is not None and maybe_entry.is_recent(self._now))")
+V('c05-purge-stale', 'C05', 'C05.PURGE', CA,
+  "for record in records if record.is_expired(now)]", "for record in records if record.is_stale(now)]")
+V('c05-purge-returns-other', 'C05', 'C05.PURGE', CA,
+  "        self.async_remove_records(expired)\n        return expired", "        self.async_remove_records(expired)\n        return [record for record in expired if record.ttl]")
+V('c05-cleanup-reports-none', 'C05', 'C05.PURGE', '_engine.py',
+  "[RecordUpdate(record, record) for record in self.zc.cache.async_expire(now)]", "[RecordUpdate(record, None) for record in self.zc.cache.async_expire(now)]")
+V('c05-known-answers-expired', 'C05', 'C05.PURGE', '_services/browser.py',
+  "            if not record.is_stale(now_millis)", "            if not record.is_expired(now_millis)")
+V('c05-expired-lt', 'C05', 'C05.LIFETIME', '_dns.py',
+  "return self.created + (_EXPIRE_FULL_TIME_MS * self.ttl) <= now", "return self.created + (_EXPIRE_FULL_TIME_MS * self.ttl) < now")
+V('c05-stale-750', 'C05', 'C05.LIFETIME', '_dns.py', "_EXPIRE_STALE_TIME_MS = 500", "_EXPIRE_STALE_TIME_MS = 750")
+V('c05-recent-ge', 'C05', 'C05.LIFETIME', '_dns.py',
+  "return self.created + (_RECENT_TIME_MS * self.ttl) > now", "return self.created + (_RECENT_TIME_MS * self.ttl) >= now")
+V('c05-expiration-percent', 'C05', 'C05.LIFETIME', '_dns.py',
+  "return self.created + (percent * self.ttl * 10)", "return self.created + (percent * self.ttl * 100)")
+V('c05-remaining-negative', 'C05', 'C05.LIFETIME', '_dns.py',
+  "return 0 if remain < 0 else remain", "return remain")
+# twins
+V('c05-twin-expired-flipped', 'C05', 'C05.LIFETIME', '_dns.py',
+  "return self.created + (_EXPIRE_FULL_TIME_MS * self.ttl) <= now", "return now >= self.ttl * 1000 + self.created", expect='silent')
+V('c05-twin-remaining-max', 'C05', 'C05.LIFETIME', '_dns.py',
+  "return 0 if remain < 0 else remain", "return max(0, remain)", expect='silent')
+V('c05-twin-kv-delete-form', 'C05', 'C05.KV', CA,
+  "        store.pop(record, None)\n        store[record] = record", "        if record in store:\n            del store[record]\n        store[record] = record", expect='silent')
+V('c05-twin-purge-renamed', 'C05', 'C05.PURGE', CA,
+  "        expired = [record for records in self.cache.values() for record in records if record.is_expired(now)]\n        self.async_remove_records(expired)\n        return expired",
+  "        gone = [rec for bucket in self.cache.values() for rec in bucket if rec.is_expired(now)]\n        self.async_remove_records(gone)\n        return gone", expect='silent')
